@@ -1029,7 +1029,8 @@ fn stringify(
                 )
             }
         },
-        ErrorKind(kind) => format!("{kind}"),
+        // Error literals are read in the display language (see `Lexer::consume_error`): print them in it too
+        ErrorKind(kind) => kind.to_localized_error_string(language),
         ParseErrorKind { formula, .. } => formula.to_string(),
         EmptyArgKind => "".to_string(),
         SpillRangeOperator { child } => {
